@@ -96,6 +96,28 @@ def run(ctx):
     r4(ctx)
     r5(ctx)
     r6(ctx, bearing)
+    ctx.rule("R7", "the kind set the acceptance test looks at is the kind set of what will be matched (every Matcher impl: potential_kinds covers match_node_with_env; "
+             "a `matches` reference resolves to the same rule in both) — obligations shared with C01 R1/R2")
+    r7(ctx)
+
+
+def r7(ctx):
+    """`RuleConfig::try_from` rejects a rule whose potential_kinds() is None.  That test only means 'the rule can only match a known set of
+    node kinds' if potential_kinds() speaks about the rule that match_node_with_env runs: the C01 obligations R1 (superset per Matcher impl)
+    and R2 (ReferentRule resolves `matches: id` through one lookup in both methods) are the static content of that clause."""
+    from . import c01
+    from ..core import Ctx
+    sub = Ctx("C01", ctx.tier, ctx.prog)
+    impls = c01.matcher_impls(ctx.prog)
+    c01.r1_r2(sub, impls)
+    c01.r2b(sub, impls)
+    n = 0
+    for o in sub.obligations:
+        if o["rule"] not in ("R1", "R2"):
+            continue
+        n += 1
+        ctx.ob("R7", o["key"].split(":", 1)[1], o["ok"], o["detail"], where=o.get("where"))
+    ctx.floor("R7", "kind-set obligations imported from C01", n, 22)
 
 
 # ------------------------------------------------------------------------------------------------
